@@ -1,7 +1,52 @@
-//! Further operations
-use serde_json::Value;
+//! Roots, reciprocal, exp (C10 - C13)
+use bigdecimal::BigDecimal;
+use serde_json::{json, Value};
+
+use crate::exec::ctx_of;
+use crate::wire::*;
+
+fn d(x: BigDecimal) -> Value {
+    json!({ "d": dec_to_json(&x) })
+}
+fn od(x: Option<BigDecimal>) -> Value {
+    match x {
+        Some(x) => d(x),
+        None => json!({"none": 1}),
+    }
+}
 
 pub fn exec_more(ev: &Value) -> Value {
     let op = ev["op"].as_str().expect("op");
-    panic!("HARNESS: unknown op {}", op)
+    let form = ev.get("form").and_then(|f| f.as_str()).unwrap_or("");
+    match op {
+        "sqrt" => {
+            let a = json_to_dec(&ev["a"]);
+            match form {
+                "default" => od(a.sqrt()),
+                "ctx" => od(a.sqrt_with_context(&ctx_of(ev))),
+                "dref_ctx" => od(a.to_ref().sqrt_with_context(&ctx_of(ev))),
+                "dref_abs" => d(a.to_ref().sqrt_abs_with_context(&ctx_of(ev))),
+                "dref_copysign" => d(a.to_ref().sqrt_copysign_with_context(&ctx_of(ev))),
+                _ => panic!("HARNESS: unknown sqrt form {}", form),
+            }
+        }
+        "cbrt" => {
+            let a = json_to_dec(&ev["a"]);
+            match form {
+                "default" => d(a.cbrt()),
+                "ctx" => d(a.cbrt_with_context(&ctx_of(ev))),
+                _ => panic!("HARNESS: unknown cbrt form {}", form),
+            }
+        }
+        "inverse" => {
+            let a = json_to_dec(&ev["a"]);
+            match form {
+                "default" => d(a.inverse()),
+                "ctx" => d(a.inverse_with_context(&ctx_of(ev))),
+                _ => panic!("HARNESS: unknown inverse form {}", form),
+            }
+        }
+        "exp" => d(json_to_dec(&ev["a"]).exp()),
+        _ => crate::exec7::exec_more(ev),
+    }
 }
